@@ -265,7 +265,7 @@ def run(chk, replay=None):
     drv = chk.driver('drv_attr')
     vals = Values(tr, chk)
     thorough = chk.tier == 'thorough'
-    K = 6 if thorough else 3
+    K = 8 if thorough else 5
 
     def real_lookup(attr, el):
         f = ac.attrconverters.get((attr, el), None)
@@ -330,7 +330,7 @@ def run(chk, replay=None):
         if nms:
             first = cnvname not in nm_used
             nm_used[cnvname] = nm_used.get(cnvname, 0) + 1
-            pick = nms if (first or thorough) else [nms[(nm_used[cnvname] * 7 + i * 3) % len(nms)] for i in range(4)]
+            pick = nms if (first or thorough) else [nms[(nm_used[cnvname] * 7 + i * 3) % len(nms)] for i in range(12)]
             for s in pick:
                 cases.append((e, a, s, 'reject', None, cnvname))
         cnvname = cnv_now
@@ -436,7 +436,7 @@ def run(chk, replay=None):
         pool.extend(type_valid[tname]); pool.extend(near_misses(tname, type_valid[tname])[:12])
     for f in sorted(enum_union):
         pool.extend(sorted(enum_union[f]))
-    for _ in range(300 if thorough else 80):
+    for _ in range(600 if thorough else 150):
         n = chk.rng.randint(1, 12)
         pool.append(u''.join(chk.rng.choice(u'0123456789-+.,% :cmintpxe_aZé\n') for _ in range(n)))
     pool = sorted(set(pool))
